@@ -26,6 +26,7 @@ def run(check: Check, repo: Repo, tier: str) -> None:
     T.termination(check, repo)
     T.root_set_pairing(check, repo)
     T.announce_cover(check, repo)
+    T.ancestor_walk(check, repo)
     T.stale_loop_var(check, repo, repo.package_modules('execution.incremental'))
     check.floor('STALE-LOOP-VAR', 10, 'loops with loop-local names')
     G.loop_counter(check, [f for m in repo.package_modules('execution') for f in m.functions()])
